@@ -620,7 +620,7 @@ def specLine (p : Prop5) (st : Option Obs) (input : String) : Option Obs × Stri
                 else "ok"
               | _, _ => "ok"
             | _, _ => "ok") else
-        if toks.head? == some "walk" then
+        if toks.head? == some "walk" || toks.head? == some "uwalk" then
           -- C12: a stream opened along a learned route (path no longer than the hop limit it was
           -- learned under) must arrive at the advertising agent's exit handling
           (some { o with clock := o.clock + 1 },
@@ -673,7 +673,11 @@ def stepLine (follow : Bool) (st : Option Net) (input : String) : Option Net × 
     | none => (none, "r=noreset")
     | some s =>
       match toks with
-      | ["walk", mh, x, pth] =>
+      | [wk, mh, x, pth] =>
+        if wk != "walk" && wk != "uwalk" then
+          (match parseOp toks with
+            | .bad ans => (some (step s .dump), ans)
+            | .op o => let (s', out) := exec s o; (some s', out)) else
         -- stateless: the STREAM_OPEN walk (`openRoute`) along a recorded path whose consecutive agents
         -- are connected; a learned route is usable whatever the hop limit it was learned under
         (some (step s .dump), match nat? mh, nat? x, parsePath pth with
